@@ -190,7 +190,7 @@ pub fn run(ctx: &mut LaneCtx) {
     ctx.run_sub(
         SubSpec {
             name: "prefix-snapshots",
-            cases: (64, 6_000),
+            cases: (96, 6_000),
             rule: "generated scenarios (as C01, up to 6 extra threads) dumped into a recording destination; EVERY write boundary of each scenario is decoded in truncation mode and an I/O error is injected at EVERY destination call in turn (exhaustive per scenario); non-trivial = scenario has boundaries between the append of a stream and the write of its directory entry; distinct = hash of scenario",
             strategy: c01::case_strategy(7).boxed(),
             max_shrink_iters: 100,
@@ -201,7 +201,7 @@ pub fn run(ctx: &mut LaneCtx) {
     ctx.run_sub(
         SubSpec {
             name: "big-flushes",
-            cases: (32, 1_500),
+            cases: (48, 1_500),
             rule: "targets with 1..4 application memory regions of 64 KiB..6.4 MiB each and 0..3 threads with stacks of up to 600 pages, so that single flushes carry several MiB; the truncation predicate is evaluated inside the destination after EVERY completed write (no snapshots kept) and an I/O error is injected at EVERY call; non-trivial = a single write larger than 1 MiB occurred; distinct = hash of case",
             strategy: (proptest::collection::vec(any::<u8>(), 1..5), any::<u16>(), any::<u8>()).prop_map(|(regions, stack_pages, threads)| BigCase { regions, stack_pages, threads }).boxed(),
             max_shrink_iters: 40,
